@@ -160,4 +160,11 @@ void gc_stack_print(gc_stack * stack, int stack_size);
 
 void gc_object_print(gc * collector, mem_ptr addr);
 
+#ifdef NEVER_VERIF
+extern int never_verif_gc_mode;
+extern int (*never_verif_gc_oracle)(gc * collector);
+extern void (*never_verif_gc_post_hook)(gc * collector, gc_stack * stack,
+                                        int stack_size, mem_ptr global_vec);
+#endif
+
 #endif /* __GC_H__ */
